@@ -418,3 +418,53 @@ package ro
 //@   track call.* callfn.*
 //@   ensures [a-new-error-that-wraps-exactly-the-cause|C07] newobject(result) && result.err == err && trace()
 
+// Observer constructors: a new observer in the open state around exactly the callbacks it is given.
+
+//@ func NewObserverWithContext
+//@   props C01 C09 C07
+//@   binds onNext onError onComplete
+//@   scope complit onComplete onError onNext
+//@   track call.* callfn.*
+//@   ensures [a-new-open-observer-around-exactly-these-callbacks|C01,C09,C07] newobject(result) && result.status == 0 && result.onNext == onNext && result.onError == onError && result.onComplete == onComplete && trace()
+
+//@ func NewObserver
+//@   props C01 C09 C07
+//@   track call.* callfn.*
+//@   ensures [a-new-open-observer|C01,C07] newobject(result) && result.status == 0 && trace()
+
+//@ func NewObserver$1
+//@   note the Next callback of NewObserver: the value goes to the user's callback, once, and nothing else happens
+//@   props C01 C04
+//@   binds value onNext
+//@   calls fn:onNext
+//@   params ctx value
+//@   scope complit ctx err onComplete onError onNext value
+//@   track callfn.*
+//@   ensures [hands-the-value-to-the-callback|C01,C04] trace(callfn.onNext(value))
+
+//@ func NewObserver$2
+//@   props C01 C07
+//@   binds err onError
+//@   calls fn:onError
+//@   params ctx err
+//@   scope complit ctx err onComplete onError onNext value
+//@   track callfn.*
+//@   ensures [hands-the-error-to-the-callback|C01,C07] trace(callfn.onError(err))
+
+//@ func NewObserver$3
+//@   props C01
+//@   binds onComplete
+//@   calls fn:onComplete
+//@   params ctx
+//@   scope complit ctx err onComplete onError onNext value
+//@   track callfn.*
+//@   ensures [calls-the-completion-callback|C01] trace(callfn.onComplete())
+
+//@ func Collect
+//@   note the context-less form of CollectWithContext: same values, same error
+//@   props C06 C17
+//@   binds obs
+//@   scope obs
+//@   track call.*
+//@   ensures [is-CollectWithContext-of-the-same-observable|C06,C17] count(call.ANY) == 1 && called(call.CollectWithContext) && arg(call.CollectWithContext, 1) == obs && result0 == res(call.CollectWithContext, 0) && result1 == res(call.CollectWithContext, 2)
+
